@@ -187,7 +187,7 @@ class Repo(object):
                 for fn_ in sorted(os.listdir(refdir)):
                     if fn_.endswith(".py"):
                         h.update(open(os.path.join(refdir, fn_), "rb").read())
-                for eng in ("core.py", "alpha.py", "equiv.py", "webs.py", "inline.py", "ratfun.py"):
+                for eng in ("core.py", "alpha.py", "equiv.py", "webs.py", "inline.py", "ratfun.py", "aliases.py"):
                     h.update(open(os.path.join(VERIF, "sa", eng), "rb").read())
                 cdir = os.environ.get("VERIF_CACHE", "/var/tmp/verif-cache")
                 os.makedirs(cdir, exist_ok=True)
@@ -227,6 +227,30 @@ class Repo(object):
                     self.inlined[name] = {"inlined": done, "dropped": removed}
                     ast.fix_missing_locations(mod.tree)
                     set_parents(mod.tree)
+        # E17: stable local aliases (bound methods, attributes bound once in __init__, constants) written back in the
+        # functions that differ from their confirmed namesake
+        if not os.environ.get("VERIF_NO_ALIASES"):
+            from . import aliases
+            sites = aliases.rebinding_sites([m.tree for m in self.modules.values()])
+
+            def related(cls, _h=hier_cur):
+                # the class, its ancestors and its descendants (not its siblings)
+                return {cls} | set(_h.get(cls, ())) | {c_ for c_, bases in _h.items() if cls in bases}
+            for name, mod in self.modules.items():
+                if name not in ref or ast.dump(mod.tree) == ast.dump(ref[name]):
+                    continue
+                if aliases.compat_spellings(mod.tree, ref[name]):
+                    set_parents(mod.tree)
+                refu = {k: n for k, n, _, _ in equiv.units(ref[name])}
+                differ = [n for k, n, _, _ in equiv.units(mod.tree)
+                          if isinstance(n, FuncTypes) and (k not in refu or ast.dump(n) != ast.dump(refu[k]))]
+                if differ:
+                    keep = {ast.unparse(n_) for n_ in ast.walk(ref[name]) if isinstance(n_, ast.Assign)}
+                    got = aliases.write_back(mod.tree, related, sites, only=differ, keep=keep)
+                    if got:
+                        self.simplified.setdefault(name, []).extend("alias " + g for g in got)
+                        ast.fix_missing_locations(mod.tree)
+                        set_parents(mod.tree)
         for name, mod in self.modules.items():
             if name in ref and not os.environ.get("VERIF_NO_EQUIV"):
                 got = equiv.adopt_reference(mod.tree, ref[name], hier_cur, hier_ref)
@@ -239,7 +263,7 @@ class Repo(object):
                     continue
                 got = equiv.simplify_views(mod.tree, ref[name])
                 if got:
-                    self.simplified[name] = got
+                    self.simplified.setdefault(name, []).extend(got)
                     ast.fix_missing_locations(mod.tree)
                     set_parents(mod.tree)
         for name, mod in self.modules.items():
